@@ -114,7 +114,8 @@ def run(r):
                    % (stats["diagnostics"], stats["quickfix_applied"], stats["completion_edit_applied"], len(bad), len(kcases), len(differs),
                       len(shapes), sum(v for k, v in stats.items() if k.startswith("no_quickfix")),
                       sum(v for k, v in stats.items() if k.startswith("no_completion_edit"))))
-    r.part2 = {"edit_shapes": shapes, "stats": dict(stats)}
+    r.extra_coverage = {"evaluations": stats["quickfix_applied"] + stats["completion_edit_applied"], "distinct_nontrivial": len(shapes),
+                        "edit_shapes": shapes, "edit_stats": dict(stats), "parameter_lists_compared_with_model": len(kcases)}
     return runner.drive_ws(r, sys.modules[__name__])
 
 
